@@ -840,3 +840,25 @@ def _fixture(name):
 for _fx in sorted(d.name for d in _FIX.iterdir() if d.is_dir()) if _FIX.is_dir() else []:
     for _prop in ('C01', 'C02', 'C03', 'C04', 'C05', 'C06', 'C07', 'C08', 'C09', 'C10', 'C11', 'C12', 'C13', 'C14', 'C15', 'C16', 'C17', 'C18', 'C19', 'C20'):
         silent(_prop, f'refactoring fixture {_fx} (whole-module behaviour-preserving rewrite)', _fixture(_fx))
+
+
+# ============================================================================================ round-2 seeds as variants
+fire('C04', 'prs-get-wakeup-guarded-by-item-truthiness (seed C04-b)', 'C04.R1', 'ReservablePriorityReqStore',
+     lambda p: M.replace_node(p, S_PRS, 'ReservablePriorityReqStore.get', lambda n: isinstance(n, ast.Compare) and ast.unparse(n) == 'item is not None', 'item', which=0))
+fire('C04', 'buffer-get-wakeup-guarded-by-item-truthiness', 'C04.R1', 'BufferStore',
+     lambda p: M.replace_node(p, S_BUF, 'BufferStore.get', lambda n: isinstance(n, ast.Compare) and ast.unparse(n) == 'item is not None', 'item', which=0))
+fire('C07', 'buffer-get-owner-check-vacuous (seed C07-b)', 'C07.R', 'BufferStore',
+     lambda p: M.replace_node(p, S_BUF, 'BufferStore._do_get', lambda n: isinstance(n, ast.Attribute) and ast.unparse(n) == 'self.env.active_process',
+                              'get_event.requesting_process', which=0))
+fire('C01', 'fleet-admission-counts-get-reservations (seed C01-b)', 'C01.O', 'FleetStore',
+     lambda p: M.replace_node(p, S_FLT, 'FleetStore._do_reserve_put', lambda n: isinstance(n, ast.Attribute) and ast.unparse(n) == 'self.reservations_put' and isinstance(n.ctx, ast.Load),
+                              'self.reservations_get', which=0))
+fire('C02', 'fleet-get-removes-head-not-bound-item (seed C02-b)', 'C02.R', 'FleetStore',
+     lambda p: M.replace_node(p, S_FLT, 'FleetStore._do_get', M.is_call('self.ready_items.remove'), 'self.ready_items.pop(0)', which=0))
+fire('C14', 'fleet-batch-copied-on-arrival (seed C14-b)', 'C14.R6', 'batch-fixed-at-departure',
+     lambda p: M.replace_node(p, S_FLT, 'FleetStore.move_to_ready_items', lambda n: isinstance(n, ast.Name) and n.id == 'items' and isinstance(n.ctx, ast.Load)
+                              and n.col_offset > 20, 'list(items)', which=0))
+fire('C17', 'splitter-pallet-stage-blocked-mark-dropped (seed C17-b)', 'C17.R8', 'Splitter.worker',
+     lambda p: M.delete_stmt(p, N_SPL, 'Splitter.worker', M.assign_to('self.env.active_process.thread_state'), which=3))
+fire('C17', 'machine-blocking-wait-not-marked-blocked', 'C17.R8', 'Machine.worker',
+     lambda p: M.delete_stmt(p, N_MAC, 'Machine.worker', M.assign_to('self.env.active_process.thread_state'), which=2))
